@@ -187,10 +187,15 @@ pub fn req_name(req: &V) -> Vec<u8> {
 }
 const RANDOM_CMDS: &[&[u8]] = &[b"RANDOMKEY", b"SPOP", b"SRANDMEMBER", b"XADD", b"SCRIPT"];
 
-pub struct Runner { pub srv: Srv, pub conns: HashMap<i128, Client>, pub t0: Instant, pub logical: i128, pub drift_bad: bool, pub queues: HashMap<i128, Vec<Vec<u8>>>, pub password: Option<String>, pub ctl_authed: bool, pub quit_sent: std::collections::HashSet<i128> }
+/// bookkeeping of the blocking-pop ops (BCONN/BSEND/BRECV/BCLOSE): server-side connection ids,
+/// requests written minus frames received per connection, frames received but not yet reported
+#[derive(Default)]
+pub struct Blk { pub ids: HashMap<i64, i128>, pub owed: HashMap<i128, i64>, pub inbox: HashMap<i128, Vec<V>>, pub eof: std::collections::HashSet<i128>, pub broken: std::collections::HashSet<i128>, pub drift: bool, pub finite: HashMap<i128, bool>, pub ctl_dead: bool }
+
+pub struct Runner { pub srv: Srv, pub conns: HashMap<i128, Client>, pub t0: Instant, pub logical: i128, pub drift_bad: bool, pub queues: HashMap<i128, Vec<Vec<u8>>>, pub password: Option<String>, pub ctl_authed: bool, pub blk: Blk, pub quit_sent: std::collections::HashSet<i128> }
 
 impl Runner {
-    pub fn new(o: &SrvOpts) -> Runner { Runner { srv: Srv::start(o), conns: HashMap::new(), t0: Instant::now(), logical: 0, drift_bad: false, queues: HashMap::new(), password: o.password.clone(), ctl_authed: false, quit_sent: Default::default() } }
+    pub fn new(o: &SrvOpts) -> Runner { Runner { srv: Srv::start(o), conns: HashMap::new(), t0: Instant::now(), logical: 0, drift_bad: false, queues: HashMap::new(), password: o.password.clone(), ctl_authed: false, blk: Blk::default(), quit_sent: Default::default() } }
     /// one op; returns (possibly augmented op, output)
     pub fn op(&mut self, op: &[Tok]) -> (Vec<Tok>, Vec<Tok>) {
         let name = tok_bytes(&op[0]).to_vec();
@@ -212,6 +217,7 @@ impl Runner {
                 // drift check: real time must stay within 80 ms of the logical clock
                 let el = self.t0.elapsed().as_millis() as i128;
                 if el - self.logical > 80 { self.drift_bad = true; }
+                if !self.blk.owed.is_empty() { self.sync_clock(); }
                 let mut wire = vec![]; req.wire(&mut wire);
                 let nm = req_name(&req);
                 let cl = match self.conns.get_mut(&c) { Some(x) => x, None => return (op.to_vec(), vec![b("CLOSED")]) };
@@ -230,6 +236,9 @@ impl Runner {
                             if (nm == b"MULTI" || nm == b"DISCARD") && !matches!(&v, V::Error(_)) { self.queues.remove(&c); }   // a refused nested MULTI keeps the queue
                             v
                         };
+                        // blocking-pop histories: let the event loop finish what this command caused (wake-ups, reads
+                        // of connections it unblocked) before the next operation is written
+                        if !self.blk.owed.is_empty() { let _ = self.settle(); self.drain_all(); self.drift_check(); }
                         let mut out = vec![]; canon_reply(&nm, v).enc(&mut out); (newop, out)
                     }
                     Rd::Timeout => (newop, vec![b("TIMEOUT")]),
@@ -362,6 +371,111 @@ impl Runner {
                 if bad { out.push(b("GARBAGE")); }
                 (newop, out)
             }
+
+            // ---- blocking-pop histories (C13) ----
+            b"BCONN" => {
+                // connect and learn the id the server gave this connection (CLIENT ID)
+                let c = tok_int(&op[1]);
+                match Client::connect(self.srv.port) {
+                    Some(mut cl) => {
+                        let mut w = vec![]; V::cmd(&[b"CLIENT", b"ID"]).wire(&mut w); cl.send(&w);
+                        if let Rd::Val(V::Int(id)) = cl.read(3000) { self.blk.ids.insert(id, c); }
+                        self.conns.insert(c, cl); self.blk.owed.insert(c, 0);
+                        (op.to_vec(), vec![i(1)])
+                    }
+                    None => (op.to_vec(), vec![i(0)]),
+                }
+            }
+            b"BSEND" => {
+                // [BSEND c t n frame*n (oracles)]: one write of n requests, no reply awaited
+                let c = tok_int(&op[1]); let n = tok_int(&op[3]) as usize;
+                let mut pos = 4; let mut wire = vec![]; let mut oracles = vec![];
+                for _ in 0..n {
+                    let req = match V::dec(op, &mut pos) { Some(r) => r, None => return (op.to_vec(), vec![b("BADFRAME")]) };
+                    req.wire(&mut wire);
+                    oracles.push(blocking_timeout_oracle(&req));
+                }
+                self.sync_clock();
+                let mut newop = op[..pos].to_vec(); newop[2] = Tok::I(self.logical);
+                let has_finite = oracles.iter().any(|o| *o > 0);
+                for o in oracles { newop.push(Tok::I(o)); }
+                if !self.settle() { return (newop, vec![b("CLOSED")]); }
+                self.drain_all();
+                // requests written behind a blocking call run when that call is answered: if it can time out that
+                // happens between two instants of the logical clock, and if another connection has requests
+                // waiting too the server reads the two in HashMap order - such a write is skipped
+                let owed_c = *self.blk.owed.get(&c).unwrap_or(&0);
+                if owed_c == 0 { self.blk.finite.insert(c, false); }
+                let skip = owed_c > 0 && (*self.blk.finite.get(&c).unwrap_or(&false) || self.blk.owed.iter().any(|(k, v)| *k != c && *v > 1));
+                if !skip {
+                    if has_finite { self.blk.finite.insert(c, true); }
+                    let cl = match self.conns.get_mut(&c) { Some(x) => x, None => return (newop, vec![b("CLOSED")]) };
+                    let _ = cl.send(&wire);
+                    *self.blk.owed.entry(c).or_insert(0) += n as i64;
+                    if !self.settle() { return (newop, vec![b("CLOSED")]); }
+                    self.drain_all();
+                }
+                let mut out = vec![i(skip as i64)];
+                match self.blocking_dump() { Some(d) => out.extend(d), None => return (newop, vec![b("CLOSED")]) }
+                self.drift_check();
+                (newop, out)
+            }
+            b"BRECV" => {
+                let c = tok_int(&op[1]);
+                self.sync_clock();
+                let mut newop = op.to_vec(); newop[2] = Tok::I(self.logical);
+                if !self.settle() { return (newop, vec![b("CLOSED")]); }
+                self.drain_all();
+                let frames = self.blk.inbox.remove(&c).unwrap_or_default();
+                let mut out = vec![i(self.blk.eof.contains(&c) as i64)];
+                for f in frames { canon(f).enc(&mut out); }
+                if self.blk.broken.contains(&c) { out.push(b("BROKEN")); }
+                self.drift_check();
+                (newop, out)
+            }
+            b"BSLEEP" => {
+                // advance the logical clock by the grid step - or, when real time is already past that, to the
+                // next grid point not before now - and wait for it; the actual advance is recorded for the model
+                let step = tok_int(&op[1]).max(1);
+                let el = self.t0.elapsed().as_millis() as i128;
+                let mut target = self.logical + step;
+                if el > target { target = ((el + step - 1) / step) * step; }
+                let adv = target - self.logical;
+                self.logical = target;
+                let now = self.t0.elapsed();
+                let tg = Duration::from_millis(target as u64);
+                if now < tg { std::thread::sleep(tg - now); }
+                (vec![op[0].clone(), Tok::I(adv)], vec![])
+            }
+            b"BDUMP" => {
+                self.sync_clock();
+                let mut newop = op.to_vec(); if newop.len() > 1 { newop[1] = Tok::I(self.logical); }
+                if !self.settle() { return (newop, vec![b("CLOSED")]); }
+                self.drain_all();
+                let r = match self.blocking_dump() { Some(d) => (newop, d), None => (newop, vec![b("CLOSED")]) };
+                self.drift_check();
+                r
+            }
+            b"BCLOSE" => {
+                // [BCLOSE c t]
+                let c = tok_int(&op[1]);
+                self.sync_clock();
+                let mut newop = op.to_vec(); if newop.len() > 2 { newop[2] = Tok::I(self.logical); }
+                if !self.settle() { return (newop, vec![b("CLOSED")]); }
+                self.drain_all();
+                let o = *self.blk.owed.get(&c).unwrap_or(&0);
+                if o > 1 { return (newop, vec![i(1), i(o)]); }
+                // what the client had received and not yet reported goes with the close
+                let frames = self.blk.inbox.remove(&c).unwrap_or_default();
+                let mut out = vec![i(0), i(o)];
+                for f in frames { canon(f).enc(&mut out); }
+                self.conns.remove(&c);
+                std::thread::sleep(Duration::from_millis(10));
+                if !self.settle() { return (newop, vec![b("CLOSED")]); }
+                self.drain_all();
+                self.drift_check();
+                (newop, out)
+            }
             b"BIG" => {
                 // [BIG c t key seed size count]: SET key <size-byte pattern>, then count GETs and a PING in ONE
                 // write; the client starts reading only after 60 ms and then reads everything: the replies
@@ -397,6 +511,87 @@ impl Runner {
             _ => (op.to_vec(), vec![b("BADOP")]),
         }
     }
+
+    /// blocking-pop histories: timeouts are 300/900 ms against a 600 ms grid of the logical clock, so an
+    /// operation may run up to 250 ms behind the logical instant it belongs to.  An operation that would start
+    /// more than 100 ms behind moves the logical clock to the next grid point first (and waits for it): the
+    /// time it records in the op is what the model's clock follows.
+    fn sync_clock(&mut self) {
+        const GRID: i128 = 600;
+        let el = self.t0.elapsed().as_millis() as i128;
+        if el - self.logical > 100 {
+            let target = ((el + GRID - 1) / GRID) * GRID;
+            self.logical = target;
+            let now = self.t0.elapsed(); let tg = Duration::from_millis(target as u64);
+            if now < tg { std::thread::sleep(tg - now); }
+        }
+    }
+    fn drift_check(&mut self) {
+        let el = self.t0.elapsed().as_millis() as i128;
+        if el - self.logical > 250 { self.blk.drift = true; }
+    }
+    fn ctl(&mut self) -> Option<&mut Client> {
+        if !self.conns.contains_key(&-1) { if let Some(cl) = Client::connect(self.srv.port) { self.conns.insert(-1, cl); } }
+        self.conns.get_mut(&-1)
+    }
+    fn ctl_int(&mut self, args: &[&[u8]]) -> Option<i64> {
+        let cl = self.ctl()?;
+        let mut w = vec![]; V::cmd(args).wire(&mut w); if !cl.send(&w) { return None; }
+        match cl.read(2000) { Rd::Val(V::Int(n)) => Some(n), _ => None }
+    }
+    /// wait until the event loop has gone through 5 more full iterations (VERIF ITER): everything the
+    /// requests written so far cause - replies, wake-ups, deliveries, reads of unblocked connections - is done
+    pub fn settle(&mut self) -> bool {
+        let n0 = match self.ctl_int(&[b"VERIF", b"ITER"]) { Some(n) => n, None => { self.blk.ctl_dead = true; return false } };
+        let t0 = Instant::now();
+        loop {
+            match self.ctl_int(&[b"VERIF", b"ITER"]) { Some(n) if n >= n0 + 6 => return true, Some(_) => {}, None => return false }
+            if t0.elapsed() > Duration::from_secs(3) { return false; }
+        }
+    }
+    /// move every frame that has arrived on a client connection into its inbox
+    pub fn drain_all(&mut self) {
+        let keys: Vec<i128> = self.conns.keys().cloned().filter(|k| *k >= 0 && self.blk.owed.contains_key(k)).collect();
+        for k in keys {
+            let cl = self.conns.get_mut(&k).unwrap();
+            let (frames, eof, bad) = cl.poll();
+            *self.blk.owed.entry(k).or_insert(0) -= frames.len() as i64;
+            self.blk.inbox.entry(k).or_default().extend(frames);
+            if eof { self.blk.eof.insert(k); }
+            if bad { self.blk.broken.insert(k); }
+        }
+    }
+    /// VERIF BLOCKING as tokens: wake-queue length, then per (db, key): db, key, number of waiters, their
+    /// connections (numbered as in the history; 0 = the id used inside EXEC)
+    pub fn blocking_dump(&mut self) -> Option<Vec<Tok>> {
+        let ids = self.blk.ids.clone();
+        let cl = self.ctl()?;
+        let mut w = vec![]; V::cmd(&[b"VERIF", b"BLOCKING"]).wire(&mut w); if !cl.send(&w) { return None; }
+        match cl.read(2000) {
+            Rd::Val(V::Array(l)) => {
+                let mut out = vec![];
+                for (k, x) in l.iter().enumerate() {
+                    match x {
+                        V::Int(n) if k == 0 => out.push(i(*n)),
+                        V::Array(r) if r.len() >= 2 => {
+                            if let (V::Int(db), V::Bulk(key)) = (&r[0], &r[1]) {
+                                out.push(i(*db)); out.push(bv(key)); out.push(i((r.len() - 2) as i64));
+                                for idv in &r[2..] { if let V::Int(id) = idv { out.push(Tok::I(if *id == 0 { 0 } else { *ids.get(id).unwrap_or(&(-(*id as i128))) })); } }
+                            }
+                        }
+                        _ => out.push(b("BADDUMP")),
+                    }
+                }
+                Some(out)
+            }
+            _ => None,
+        }
+    }
+    pub fn finish(mut self) -> bool {
+        // the control connection of a blocking-pop history went dead: give a server whose event loop has ended
+        // the time to finish exiting before its liveness is sampled
+        if self.blk.ctl_dead { let t0 = Instant::now(); while self.srv.alive() && t0.elapsed() < Duration::from_secs(4) { std::thread::sleep(Duration::from_millis(20)); } }
+        let alive = self.srv.alive(); self.conns.clear(); self.srv.stop(false); alive }
     /// two request/reply round trips on the private control connection (authenticated when needed)
     pub fn barrier(&mut self) {
         if !self.conns.contains_key(&-1) { if let Some(cl) = Client::connect(self.srv.port) { self.conns.insert(-1, cl); } }
@@ -407,7 +602,6 @@ impl Runner {
             ask(cl, &[b"PING"]); ask(cl, &[b"PING"]);
         }
     }
-    pub fn finish(mut self) -> bool { let alive = self.srv.alive(); self.conns.clear(); self.srv.stop(false); alive }
 }
 
 /// run a whole case on a fresh server; a case that hit a harness-side timeout (reply or sweeper wait
@@ -432,11 +626,31 @@ pub fn run_case_once(c: &Case, o: &SrvOpts) -> Case {
     }
     let mut r = Runner::new(&opts);
     for op in &c.ops[skip..] { let (o2, res) = r.op(op); out.ops.push(o2); out.outs.push(res); }
-    let drift = r.drift_bad && c.ops.iter().any(|o| matches!(o.first(), Some(Tok::B(n)) if n == b"SLEEP"));
+    let drift = (r.drift_bad && c.ops.iter().any(|o| matches!(o.first(), Some(Tok::B(n)) if n == b"SLEEP"))) || r.blk.drift;
     let alive = r.finish();
     if !alive { out.ops.push(vec![b("ALIVE")]); out.outs.push(vec![i(0)]); }
     if drift { out.id = format!("{}-DISCARD", out.id); }
     out
+}
+
+/// the timeout argument of BLPOP/BRPOP as the server reads it (f64 text is an oracle for the model):
+/// -2 not a blocking pop, -1 refused, 0 forever, else milliseconds (at least 1)
+pub fn blocking_timeout_oracle(req: &V) -> i128 {
+    let nm = req_name(req);
+    if nm != b"BLPOP" && nm != b"BRPOP" { return -2; }
+    let l = match req { V::Array(l) => l, _ => return -2 };
+    match l.last() {
+        Some(V::Bulk(a)) if l.len() >= 3 => {
+            match String::from_utf8_lossy(a).parse::<f64>() {
+                Ok(t) if t < 0.0 => -1,
+                Ok(t) if t == 0.0 => 0,
+                Ok(t) if !t.is_finite() || t > 1.0e9 => -1,
+                Ok(t) => std::cmp::max(1, Duration::from_secs_f64(t).as_millis() as i128),
+                Err(_) => -1,
+            }
+        }
+        _ => -2,
+    }
 }
 
 // ---- helpers for generators ----
@@ -451,6 +665,11 @@ pub fn raw_op(conn: i64, chunks: &[Vec<u8>]) -> Vec<Tok> { let mut o = vec![b("R
 pub fn sweep_op() -> Vec<Tok> { vec![b("SWEEP"), i(0)] }
 pub fn sweep_gate_op() -> Vec<Tok> { vec![b("SWEEP_GATE"), i(0)] }
 pub fn sweep_release_op() -> Vec<Tok> { vec![b("SWEEP_RELEASE"), i(0)] }
+pub fn bconn_op(conn: i64) -> Vec<Tok> { vec![b("BCONN"), i(conn)] }
+pub fn bsend_op(conn: i64, reqs: &[V]) -> Vec<Tok> { let mut o = vec![b("BSEND"), i(conn), i(0), i(reqs.len() as i64)]; for r in reqs { r.enc(&mut o); } o }
+pub fn brecv_op(conn: i64) -> Vec<Tok> { vec![b("BRECV"), i(conn), i(0)] }
+pub fn bsleep_op(ms: i64) -> Vec<Tok> { vec![b("BSLEEP"), i(ms)] }
+pub fn bclose_op(conn: i64) -> Vec<Tok> { vec![b("BCLOSE"), i(conn), i(0)] }
 pub fn subcmd_op(conn: i64, args: &[&[u8]]) -> Vec<Tok> { let mut o = vec![b("SUBCMD"), i(conn), i(0)]; V::cmd(args).enc(&mut o); o }
 pub fn subcmd_frame_op(conn: i64, req: &V) -> Vec<Tok> { let mut o = vec![b("SUBCMD"), i(conn), i(0)]; req.enc(&mut o); o }
 pub fn subraw_op(conn: i64, bytes: &[u8]) -> Vec<Tok> { vec![b("SUBRAW"), i(conn), i(0), bv(bytes)] }
